@@ -3,6 +3,28 @@ from vmc.core.explore import BudgetExceeded
 from vmc.ref import enip, net, wire as W
 
 
+_CPU_BUDGET = [float(__import__("os").environ.get("VMC_CALL_CPU_SECONDS", "150"))]
+_CPU_ARMED = [False]
+
+
+def _cpu_alarm(signum, frame):
+    raise BudgetExceeded("cpu time budget of one library call exceeded")
+
+
+def _arm_cpu_budget():
+    """Non-termination that does no I/O (a loop over a list that grows, a counter that never arrives) is a verdict too: every library call
+    gets a budget of CPU time (process CPU, so a loaded machine does not matter); outermost call only, main thread only."""
+    import signal
+    import threading
+
+    if _CPU_ARMED[0] or threading.current_thread() is not threading.main_thread():
+        return False
+    signal.signal(signal.SIGVTALRM, _cpu_alarm)
+    signal.setitimer(signal.ITIMER_VIRTUAL, _CPU_BUDGET[0])
+    _CPU_ARMED[0] = True
+    return True
+
+
 def call(fn, *a, **k):
     """Run a public API call; classify how it ended.
 
@@ -10,14 +32,34 @@ def call(fn, *a, **k):
     """
     from pycomm3.exceptions import PycommError
 
+    def text(e):
+        try:
+            return str(e)[:120]
+        except Exception as x:  # noqa
+            return x
+
+    armed = _arm_cpu_budget()
     try:
         return ("ok", fn(*a, **k))
     except PycommError as e:
-        return ("pycomm", type(e).__name__, str(e)[:120])
-    except BudgetExceeded:
+        t = text(e)
+        if not isinstance(t, str):
+            # an exception that cannot be printed blows up in the application's handler or log call instead
+            return ("foreign", f"{type(t).__name__} (raised while formatting the {type(e).__name__})", repr(t)[:80])
+        return ("pycomm", type(e).__name__, t)
+    except BudgetExceeded as e:
+        if "cpu" in str(e):
+            _CPU_BUDGET[0] = 0.5  # the verdict is in; later calls of this process get little patience
         return ("hang",)
     except Exception as e:  # noqa
-        return ("foreign", type(e).__name__, str(e)[:120])
+        t = text(e)
+        return ("foreign", type(e).__name__, t if isinstance(t, str) else repr(t)[:80])
+    finally:
+        if armed:
+            import signal
+
+            signal.setitimer(signal.ITIMER_VIRTUAL, 0)
+            _CPU_ARMED[0] = False
 
 
 def frame_violations(world, target):
